@@ -5,4 +5,5 @@ import LettreVerif.Props.C20
 #print axioms LV.C20.broken_not_parked
 #print axioms LV.C20.send_raw_waits_bounded
 #print axioms LV.C20.sync_send_raw_bounded
+#print axioms LV.C20.after_send_raw_parked_are_open
 #print axioms LV.C20.tokio_unbounded_witness
